@@ -81,11 +81,20 @@ def all_cases(tier):
             yield (geom, 10, "butt", join, ml, "none", 0, None, "attr", "none", False)
         for geom in GEOMS:
             yield (geom, 4, "round", "round", 4, "10 5", 0, None, "attr", "orange", False)
+        # stroke-width 0: nothing is stroked (SVG 11.4: "a zero value causes no stroke to be painted"), whatever the other properties say
+        for geom, cap, join, (dash, off), where, fill in itertools.product(GEOMS, ("butt", "round", "square"), ("miter", "round"), (("none", 0), ("10 5", 0)), WHERE, ("none", "orange")):
+            if cap != "butt" and where != "attr":
+                continue
+            yield (geom, 0, cap, join, 4, dash, off, None, where, fill, False)
         # dash arrays with zero entries: a zero dash is a dot under round / square caps and nothing under butt caps; a zero gap joins its neighbours
         for geom, cap, (dash, off), fill in itertools.product(("line", "polyline", "rect", "circle"), ("butt", "round", "square"), ZERO_DASHES, ("none", "orange")):
             if geom in GEOMS:
                 yield (geom, 4, cap, "round", 4, dash, off, None, "attr", fill, False)
     else:
+        for geom, cap, join, (dash, off), tf, where, fill, tr in itertools.product(GEOMS, ("butt", "round", "square"), ("miter", "round", "bevel"), (("none", 0), ("10 5", 0), ("0 12", 0)), TRANSFORMS, WHERE, ("none", "orange"), (False, True)):
+            if tr and fill == "none":
+                continue
+            yield (geom, 0, cap, join, 4, dash, off, tf, where, fill, tr)
         for geom, w, cap, join, ml, (dash, off), tf, where, fill, tr in itertools.product(GEOMS, (4, 10), ("butt", "round", "square"), ("miter", "round", "bevel"), (1, 4, 10), DASHES, TRANSFORMS, WHERE, ("none", "orange"), (False, True)):
             if tr and fill == "none":
                 continue
@@ -195,8 +204,8 @@ def cases(tier, seed):
 
 def run(run):
     run.rule = (
-        "E2 + R3 three-valued strokes: geometry {open polyline with a sharp corner, closed triangle, two-subpath path, cubic S-curve, rect, circle, line} x stroke-width {4,10} x linecap 3 x linejoin 3 "
-        "x miterlimit {1,4,10} x dasharray {none, '10' (odd), '10 5', '10 5 2' (odd)} with offsets {0, 7, -3} x outer transform {none, non-uniform scale, rotate.translate} x where the stroke "
+        "E2 + R3 three-valued strokes: geometry {open polyline with a sharp corner, closed triangle, two-subpath path, cubic S-curve, rect, circle, line} x stroke-width {0 (no stroke at all), 4, 10} x linecap 3 x linejoin 3 "
+        "x miterlimit {1,4,10} x dasharray {none, '10' (odd), '10 5', '10 5 2' (odd)} with offsets {0, 7, -3}, arrays with zero entries {'0 12', '6 0 0 10', '6 0 4 10'} (zero dash = dot under round/square caps, nothing under butt; zero gap joins its neighbours) x outer transform {none, non-uniform scale, rotate.translate} x where the stroke "
         "properties are set {own attribute, own style, inherited from group, inherited from root} x fill {none, colour} x {opaque, fill-opacity .5 + stroke-opacity .5} (quick: width 10, miterlimit 4, "
         "3 dash settings). Oracle: at every point the reference classifies definitely inside / outside the ideal stroke region (delta = 0.5 user units in the shape's own coordinate system), "
         "the output shows the stroke paint directly above the fill with the right alphas; undecided points (caps, joins, dash ends, within delta of the outline) are skipped. "
